@@ -72,7 +72,12 @@ func (w *World) verifyFunc(fn *ssa.Function, fc *FuncContract, safetyTags []stri
 			if _, isPtr := p.Type().Underlying().(*types.Pointer); isPtr {
 				st.assume(sNot(sEq(v.S, "0")))
 			}
+			rv := v
+			x.absRecv, x.absType = &rv, namedKey(p.Type())
 		}
+	}
+	if fc != nil && strings.HasSuffix(fc.File, "@iface") {
+		x.nameSuffix = "@iface"
 	}
 	var free []Val
 	for _, fv := range fn.FreeVars {
@@ -277,6 +282,9 @@ func (x *Exec) frameGoals(st *State, fc *FuncContract, vars map[string]Val, only
 		if only != nil && !only[c] {
 			continue
 		}
+		if x.nameSuffix == "@iface" && !strings.HasPrefix(c, "gg:") && !strings.HasPrefix(c, "ghost:") {
+			continue // an interface contract frames only the abstract (ghost) state its clients see
+		}
 		init := x.initHeap[c]
 		if init == "" {
 			init = st.heapInit(x.initHeap, c)
@@ -289,6 +297,7 @@ func (x *Exec) frameGoals(st *State, fc *FuncContract, vars map[string]Val, only
 		// a callee havoc'd everything: the frame cannot be proved
 		return [][2]string{{"havoc-all", "false"}}
 	}
+	_ = allowed
 	sort.Strings(classes)
 	for _, c := range classes {
 		a := allowed[c]
@@ -541,3 +550,20 @@ func firstLines(s string, n int) string {
 }
 
 var _ = token.NoPos
+
+// ifaceAsContract turns the interface contract a function `implements` into a contract of that function.
+func (w *World) ifaceAsContract(fc *FuncContract) *FuncContract {
+	ic, ok := w.cs.Funcs[fc.Implements]
+	if !ok {
+		return nil
+	}
+	d := *ic
+	d.Kind = "func"
+	d.Key = fc.Key
+	d.Recv = "this"
+	d.Entry = true // the implementation's object invariants are available (and re-proved)
+	d.Inline = false
+	d.File = ic.File + "@iface"
+	d.Tags = fc.Tags
+	return &d
+}
